@@ -280,6 +280,13 @@ def run_qr(case):
             singular_diag = True
     out['ks'] = ks
     out['singular_diag'] = singular_diag
+    if lq:
+        # tie of Model/Factor2.v lq_charges: the blocked structure of `a` ITSELF (the model transposes); rows kept per
+        # stored block of a (= columns of q for the transposed block)
+        _, ba, binfo_a = blocked_info(a)
+        out['blocked_a'] = binfo_a
+        out['ks_a'] = [None if o.get('cutoff') is not None else
+                       (int(min(blk.shape)) if kw['mode'] != 'complete' else int(blk.shape[1])) for blk in ba._data]
     if o.get('cutoff') is not None and np.linalg.norm(ad) == 0:
         out['skip'] = True      # rank 0 with a cutoff: no inner leg at all (svd raises RuntimeError there); not required
         out['problems'] = []
@@ -550,9 +557,136 @@ def run_ortho(case):
     return out
 
 
+# ------------------------------------------------------------------------------------------------
+# 'plan' stream: the code AROUND the per-block LAPACK calls, with the LAPACK entry points replaced (in this process
+# only) by a stub returning recorded integer-valued matrices -- tie of Model/Factor2.v (eig_plan) and
+# Model/FactorDense.v (pos_diag, svd assembly), which are parametric in exactly these per-block results
+# ------------------------------------------------------------------------------------------------
+
+def imat(x):
+    x = np.asarray(x)
+    if np.iscomplexobj(x):
+        if np.any(x.imag != 0):
+            raise ValueError('complex entries in a plan case')
+        x = x.real
+    if np.any(x != np.round(x)):
+        raise ValueError('non-integer entries in a plan case')
+    return [[int(v) for v in row] for row in x.tolist()] if x.ndim == 2 else [int(v) for v in x.tolist()]
+
+
+class Patched:
+    """temporarily replace attributes (LAPACK entry points) by stubs"""
+
+    def __init__(self, *triples):
+        self.triples = triples
+
+    def __enter__(self):
+        self.old = [getattr(o, n) for o, n, _ in self.triples]
+        for o, n, f in self.triples:
+            setattr(o, n, f)
+
+    def __exit__(self, *exc):
+        for (o, n, _), f in zip(self.triples, self.old):
+            setattr(o, n, f)
+
+
+def plan_matrix(case):
+    c = dict(case)
+    c['complex'] = False
+    a = make_matrix(c)
+    _, b, binfo = blocked_info(a)
+    return a, b, binfo
+
+
+def run_plan(case):
+    import tenpy.linalg.np_conserved as npc
+    what = case['plan']
+    rng = np.random.default_rng(case['seed'] + 17)
+    a, b, binfo = plan_matrix(case)
+    out = {'blocked': binfo, 'stored_blocks': int(b.stored_blocks), 'problems': []}
+    calls = []
+    if what == 'eig':
+        def stub(block, *args, **kw):
+            n = block.shape[0]
+            rw = rng.permutation(np.arange(-3 * n - 2, 3 * n + 3))[:n].astype(np.float64)
+            rv = rng.integers(-9, 10, size=(n, n)).astype(np.float64)
+            calls.append({'block': np.array(block), 'rw': rw.copy(), 'rv': rv.copy()})
+            return rw, rv
+        herm = bool(case.get('hermitian'))
+        with Patched((np.linalg, 'eigh', stub), (np.linalg, 'eig', stub)):
+            W, V = npc.eigh(b, sort=None) if herm else npc.eig(b, sort=None)
+        out['order_ok'] = len(calls) == len(b._data) and all(np.array_equal(c['block'], blk) for c, blk in zip(calls, b._data))
+        out['eigs'] = [[imat(c['rw']), imat(c['rv'])] for c in calls]
+        out['resv'] = [[int(q[0]), int(q[1]), imat(blk)] for q, blk in zip(V._qdata, V._data)]
+        out['resw'] = imat(W)
+        out['legs_ok'] = bool(V.legs[0].qconj == b.legs[0].qconj and np.array_equal(V.legs[0].to_qflat(), b.legs[0].to_qflat())
+                              and V.legs[1].qconj == -b.legs[0].qconj and np.array_equal(V.legs[1].to_qflat(), b.legs[0].to_qflat())
+                              and np.all(V.qtotal == 0))
+        return out
+    if what == 'posdiag':
+        mode = case['opts']['mode']
+        zero_rate = case['opts'].get('zero_rate', 0.0)
+
+        def stub(block, md='reduced'):
+            M, N = block.shape
+            P = M if md == 'complete' else min(M, N)
+            q = rng.integers(-5, 6, size=(M, P)).astype(np.float64)
+            r = np.triu(rng.integers(-5, 6, size=(P, N))).astype(np.float64)
+            for k in range(min(P, N)):
+                r[k, k] = 0 if rng.random() < zero_rate else rng.choice([-4, -3, -2, -1, 1, 2, 3])
+            calls.append({'block': np.array(block), 'q': q.copy(), 'r': r.copy()})
+            return q, r
+        with Patched((np.linalg, 'qr', stub)):
+            Q, R = npc.qr(b, mode=mode, pos_diag_R=True, inner_qconj=case['opts'].get('inner_qconj', 1))
+        out['order_ok'] = len(calls) == len(b._data) and all(np.array_equal(c['block'], blk) for c, blk in zip(calls, b._data)) \
+            and len(Q._data) >= len(calls) and len(R._data) == len(calls)
+        blocks = []
+        for k, c in enumerate(calls):
+            qk, rk = np.asarray(Q._data[k]), np.asarray(R._data[k])
+            nan = bool(np.any(np.isnan(qk)) or np.any(np.isnan(rk)))
+            blocks.append({'M': int(c['q'].shape[0]), 'P': int(c['r'].shape[0]), 'N': int(c['r'].shape[1]), 'Q': imat(c['q']), 'R': imat(c['r']),
+                           'out': None if nan else [imat(qk), imat(rk)], 'shapes_ok': qk.shape == c['q'].shape and rk.shape == c['r'].shape})
+        out['blocks'] = blocks
+        return out
+    if what == 'svdasm':
+        full = bool(case['opts']['full_matrices'])
+
+        def stub(block, full_matrices=False, compute_uv=True, overwrite_a=False, check_finite=True, lapack_driver='gesdd'):
+            M, N = block.shape
+            K = min(M, N)
+            if full_matrices:
+                n, mu, mv = K, M, N
+            else:
+                n = K if rng.random() < 0.55 else int(rng.integers(0, K + 1))
+                mu = mv = n
+            U = rng.integers(-5, 6, size=(M, mu)).astype(np.float64)
+            S = rng.integers(1, 9, size=(n,)).astype(np.float64)
+            V = rng.integers(-5, 6, size=(mv, N)).astype(np.float64)
+            calls.append({'block': np.array(block), 'n': n, 'U': U.copy(), 'S': S.copy(), 'V': V.copy()})
+            return (U, S, V) if compute_uv else S
+        try:
+            with Patched((npc, 'svd_flat', stub)):
+                U, S, VH = npc.svd(b, full_matrices=full, inner_qconj=case['opts'].get('inner_qconj', 1))
+        except RuntimeError:
+            out['raised'] = 'RuntimeError'
+            out['all_zero'] = all(c['n'] == 0 for c in calls)
+            return out
+        out['order_ok'] = len(calls) == len(b._data) and all(np.array_equal(c['block'], blk) for c, blk in zip(calls, b._data))
+        out['rs'] = [int(x) for x in b.legs[0].get_block_sizes()]
+        out['cs'] = [int(x) for x in b.legs[1].get_block_sizes()]
+        out['fs'] = [[int(q[0]), int(q[1]), int(c['n']), imat(c['U']), imat(c['S']), imat(c['V'])] for q, c in zip(b._qdata, calls)]
+        out['U'] = [[int(q[0]), int(q[1]), imat(blk)] for q, blk in zip(U._qdata, U._data)]
+        out['V'] = [[int(q[0]), int(q[1]), imat(blk)] for q, blk in zip(VH._qdata, VH._data)]
+        out['S'] = imat(S)
+        out['ns'] = [] if full else [int(x) for x in VH.legs[0].get_block_sizes()]
+        out['inner_contractible'] = contractible(U.legs[1], VH.legs[0]) if not full else None
+        return out
+    raise ValueError(what)
+
+
 def main():
     payload = json.load(open(sys.argv[1]))
-    f = {'svd': run_svd, 'qr': run_qr, 'eig': run_eig, 'pinv': run_pinv, 'ortho': run_ortho}[payload['kind']]
+    f = {'svd': run_svd, 'qr': run_qr, 'eig': run_eig, 'pinv': run_pinv, 'ortho': run_ortho, 'plan': run_plan}[payload['kind']]
     res = []
     for c in payload['cases']:
         try:
